@@ -74,6 +74,7 @@ def emit_members(tab, eq_excluded=None, supersig=None, switch=None, helpers=None
     ss = supersig or {}
     out.append("Definition add_loops : list string := %s." % coq_list([coq_str(x) for x in ss.get("add_loops", [])]))
     out.append("Definition hint_loops : list string := %s." % coq_list([coq_str(x) for x in ss.get("hint_loops", [])]))
+    out.append("Definition state_calls : list string := %s." % coq_list([coq_str(x) for x in ss.get("state_calls", ["missing"])]))
     out.append("Definition cache_writes : list string := %s." % coq_list([coq_str(x) for x in ss.get("cache_writes", [])]))
     out.append("Definition arg_check : list string := %s." % coq_list([coq_str(x) for x in ss.get("arg_check", [])]))
     out.append("Definition hint_tests : list string := %s." % coq_list([coq_str(x) for x in ss.get("hint_tests", [])]))
